@@ -60,16 +60,38 @@ theorem blockJoin_regenerated (h : Gen.Code.blockJoin_extracted = true) (b : Blo
 
 /-! ### T1: tb.New, Block.Apply -/
 
+/-- `forRange_fold_inv` (Core) whose body may also use that the element variable is `data[k]` -/
+theorem forRange_fold_elem {β σ : Type} (P : σ → Prop) (data : List β) (step : σ → Nat → σ) (body : Int → β → σ → R σ)
+    (hP : ∀ (k : Nat) (s : σ), k < data.length → P s → P (step s k))
+    (hbody : ∀ (k : Nat) (x : β) (s : σ) (hk : k < data.length), x = data[k] → P s → body (k : Int) x s = pure (step s k)) :
+    ∀ (xs pre : List β) (s : σ), data = pre ++ xs → P s →
+      Go.forRangeAux body (pre.length : Int) xs s = pure ((List.range' pre.length xs.length).foldl step s) := by
+  intro xs
+  induction xs with
+  | nil => intro pre s _ _; rfl
+  | cons x xs ih =>
+    intro pre s hc hs
+    have hk : pre.length < data.length := by rw [hc]; simp
+    have hx : x = data[pre.length] := by subst hc; simp
+    rw [Go.forRangeAux, hbody pre.length x s hk hx hs, pure_bind]
+    have := ih (pre ++ [x]) (step s pre.length) (by simp [hc]) (hP _ _ hk hs)
+    simp only [List.length_append, List.length_cons, List.length_nil, Nat.zero_add, Int.natCast_add, Int.cast_ofNat_Int] at this
+    rw [this]
+    simp [List.range'_succ]
+
 /-- the copy loop of `tb.New`: `for i := range lines { bl.Lines[i] = lines[i] }` into a block with as many lines -/
 theorem forRange_copy_block (ls : List (List α)) (body : Int → List α → Block α → R (Block α))
-    (hbody : ∀ (k : Nat) (x : List α) (b : Block α), k < ls.length → b.lines.length = ls.length →
-      body (k : Int) x b = pure { b with lines := b.lines.set k (ls.getD k []) })
+    (hbody : ∀ (k : Nat) (x : List α) (b : Block α) (hk : k < ls.length), x = ls[k] → b.lines.length = ls.length →
+      body (k : Int) x b = pure { b with lines := b.lines.set k ls[k] })
     (b0 : Block α) (h0 : b0.lines.length = ls.length) :
     Go.forRangeM ls body b0 = pure { b0 with lines := ls } := by
-  have h := forRangeM_fold_inv (fun b : Block α => b.lines.length = ls.length) ls
+  have h := forRange_fold_elem (fun b : Block α => b.lines.length = ls.length) ls
     (fun b k => { b with lines := b.lines.set k (ls.getD k []) }) body (by intro k s _ hs; simpa using hs)
-    (by intro k x s hk hs; exact hbody k x s hk hs) b0 h0
-  rw [h]
+    (by intro k x s hk hx hs
+        rw [hbody k x s hk hx hs]
+        simp [List.getD_eq_getElem?_getD, hk]) ls [] b0 rfl h0
+  simp only [List.length_nil, Int.natCast_zero, ← List.range_eq_range'] at h
+  rw [Go.forRangeM, h]
   congr 1
   have hf : ∀ (n : Nat) (b : Block α), (List.range n).foldl (fun (b : Block α) k => { b with lines := b.lines.set k (ls.getD k []) }) b =
       { b with lines := (List.range n).foldl (fun c j => c.set j (ls.getD j [])) b.lines } := by
@@ -95,43 +117,30 @@ theorem blockNew_regenerated (h : Gen.Code.blockNew_extracted = true) (text sep 
        go_norm
        split
        · rfl
-       · generalize splitOn text sep = L
+       · rename_i hs
+         have hne := splitOn_ne_nil text sep (Or.inl hs)
+         generalize splitOn text sep = L at *
          -- the copy loop, whatever the list and the flag are
          have hcopy : ∀ (ls : List (List α)) (body : Int → List α → Block α → R (Block α)) (tr : Bool),
-             (∀ (k : Nat) (x : List α) (b : Block α), k < ls.length → b.lines.length = ls.length →
-               body (k : Int) x b = pure { b with lines := b.lines.set k (ls.getD k []) }) →
+             (∀ (k : Nat) (x : List α) (b : Block α) (hk : k < ls.length), x = ls[k] → b.lines.length = ls.length →
+               body (k : Int) x b = pure { b with lines := b.lines.set k ls[k] }) →
              (Go.makeSlice (ls.length : Int) ([] : List α) >>= fun t5 =>
                Go.forRangeM ls body { lines := t5, sep := sep, trailing := tr }) =
                pure ({ lines := ls, sep := sep, trailing := tr } : Block α) := by
            intro ls body tr hb
            rw [makeSlice_nat, pure_bind, forRange_copy_block ls body hb _ (by simp)]
-         have hbody : ∀ (ls : List (List α)) (k : Nat) (b : Block α), k < ls.length → b.lines.length = ls.length →
-             (Go.idx ls (k : Int) >>= fun t6 => Go.sliceSet b.lines (k : Int) t6) = pure (b.lines.set k (ls.getD k [])) := by
-           intro ls k b hk hl
-           simp only [idx_nat ls k hk, pure_bind, Go.sliceSet]
-           rw [if_pos (by omega)]
-           simp [List.getD_eq_getElem?_getD, hk]
-         by_cases h1 : (L.length : Int) > 1
-         · have hne : L ≠ [] := by intro h0; subst h0; simp at h1
-           simp only [h1, if_true, idx_last L hne, pure_bind, sliceTo_dropLast L hne]
-           have hl : (L.getLast? == some []) = decide (L.getLast hne = []) := by
-             rw [List.getLast?_eq_some_getLast hne]
-             by_cases hx : L.getLast hne = [] <;> simp [hx]
-           have h1' : L.length > 1 := by omega
-           by_cases h2 : L.getLast hne = []
-           · simp only [h2, decide_true, if_true, pure_bind, hl, h1', and_self]
-             rw [hcopy]
-             intro k x b hk hlen
-             rw [← bind_assoc, hbody _ k b hk hlen, pure_bind]
-           · simp only [h2, decide_false, if_false, pure_bind, hl, h1', Bool.false_eq_true, and_false]
-             rw [hcopy]
-             intro k x b hk hlen
-             rw [← bind_assoc, hbody _ k b hk hlen, pure_bind]
-         · have h1' : ¬ L.length > 1 := by omega
-           simp only [h1, h1', if_false, pure_bind, Bool.false_eq_true, false_and]
-           rw [hcopy]
-           intro k x b hk hlen
-           rw [← bind_assoc, hbody _ k b hk hlen, pure_bind])
+         have hl : (L.getLast? == some []) = decide (L.getLast hne = []) := by
+           rw [List.getLast?_eq_some_getLast hne]
+           by_cases hx : L.getLast hne = [] <;> simp [hx]
+         -- everything before the loop is free of panics once `lines` is known to be non-empty
+         simp only [idx_last L hne, sliceTo_dropLast L hne, pure_bind, bind_assoc, ite_pure, hl]
+         rw [hcopy]
+         · go_close
+         · intro k x b hk hx hlen
+           subst hx
+           simp only [idx_nat _ k hk, pure_bind, bind_assoc, Go.sliceSet]
+           rw [if_pos ⟨Int.natCast_nonneg k, by rw [Int.toNat_natCast, hlen]; exact hk⟩]
+           simp only [pure_bind, Int.toNat_natCast])
 
 /-- the loop of `Block.Apply`: `for idx, line := range xs { applied = append(applied, f(idx, line)...) }` -/
 theorem forRange_append_mapM {β γ : Type} (g : Int → β → R (List γ)) (d : β) : ∀ (xs pre : List β) (acc : List γ),
